@@ -103,6 +103,10 @@ def recorded_handler(signum, frame):  # a pre-existing Python SIGINT handler
 recorded_handler.calls = 0
 
 
+def recorded_handler_2(signum, frame):  # another one, installed between two uses of the same context object
+    recorded_handler.calls += 1
+
+
 IO = {"read": {}}  # bytes the library read, per descriptor (filled by the read hook of the virtual-time substitution)
 
 
@@ -129,6 +133,7 @@ def one_run(case, res, sim):
         apply_initial(pty.slave, init)
         old_handler = signal.getsignal(signal.SIGINT)
         pre_handler = old_handler
+        handler_is_dfl = init.get("handler", "default") == "dfl"
         if on_main:
             hk = init.get("handler", "default")
             if hk == "ign":
@@ -207,6 +212,22 @@ def one_run(case, res, sim):
                 main_before = [list(r) for r in term.main]
                 tape_before = [list(r) for r in term.tape()]
                 entry_tape_row = len(term.scrollback) + term.r
+                if on_main:
+                    # ... and so are the program's SIGINT handler and wake-up descriptor: what has to be back afterwards is
+                    # what was there when *this* use began, not what an earlier use of the same object found
+                    rotation = [signal.default_int_handler, recorded_handler, signal.SIG_IGN, recorded_handler_2]
+                    pre_handler = [h_ for h_ in rotation if h_ is not pre_handler][cycle % 3]
+                    handler_is_dfl = False
+                    signal.signal(signal.SIGINT, pre_handler)
+                    if pre_wakeup == -1:
+                        if wake_w is None:
+                            wake_r, wake_w = os.pipe()
+                            os.set_blocking(wake_w, False)
+                        pre_wakeup = wake_w
+                    else:
+                        pre_wakeup = -1
+                    signal.set_wakeup_fd(pre_wakeup, warn_on_full_buffer=False)
+                    res.label("sigint_handler_and_wakeup_fd_changed_between_uses")
             ex = case.get("exit", {"mode": "normal"})
             body = case.get("body", [])
             left_by = "normal"
@@ -257,7 +278,7 @@ def one_run(case, res, sim):
                                         except UnicodeDecodeError:
                                             truncated["char"] = True
                                 fl_pre = fcntl.fcntl(pty.slave, fcntl.F_GETFL)
-                                sigint_safe = init.get("handler", "default") != "dfl" or opts.get("sigint_event", False)
+                                sigint_safe = not handler_is_dfl or opts.get("sigint_event", False)
                                 if ex["mode"] == "sigint" and ex.get("after", 0) == k and on_main and sigint_safe:
                                     def fire():
                                         signal.raise_signal(signal.SIGINT)
